@@ -127,7 +127,7 @@ def check_concurrent(exe, v, cases, workdir, stats):
         for nm, (ok, detail) in o["struct"].items():
             if ok or nm == "skip_towers_complete" or nm == "bronson_no_removable_routing_node":
                 continue
-            bad.append(("structural check %s fails at a quiescent point" % nm, {"detail": detail}))
+            bad.append(("structural check %s fails at a quiescent point" % nm, {"detail": detail, "shape": " ".join(mon.get("shape", []))}))
         if int((mon.get("functor_bad") or ["0"])[0]) != 0:
             bad.append(("functor contract violated", {"count": mon["functor_bad"][0]}))
         for what, detail in bad:
@@ -302,10 +302,78 @@ def check_sequential(exe, v, cases, workdir, stats, shape_model=None):
     return viol
 
 
-def signature_of(what):
+def parse_bronson_shape(sh):
+    """'(L 5v2 R)' / '.'  ->  nested dict {k, valued, h (stored), l, r, rh (real height)} or None"""
+    pos = [0]
+
+    def node():
+        if sh[pos[0]] == ".":
+            pos[0] += 1
+            return None
+        assert sh[pos[0]] == "("
+        pos[0] += 1
+        l = node()
+        assert sh[pos[0]] == " "
+        pos[0] += 1
+        j = pos[0]
+        while sh[j] not in "vr":
+            j += 1
+        k = int(sh[pos[0]:j])
+        valued = sh[j] == "v"
+        j2 = j + 1
+        while sh[j2] != " ":
+            j2 += 1
+        h = int(sh[j + 1:j2])
+        pos[0] = j2 + 1
+        r = node()
+        assert sh[pos[0]] == ")"
+        pos[0] += 1
+        n = {"k": k, "valued": valued, "h": h, "l": l, "r": r}
+        n["rh"] = 1 + max(l["rh"] if l else 0, r["rh"] if r else 0)
+        return n
+    return node() if sh else None
+
+
+def bronson_imbalance_explained(sh):
+    """every unbalanced node of the dumped tree is one the algorithm leaves alone BY DESIGN (as in snaptree): the heavy
+    child is a routing node, the double rotation would create a routing node with a missing child, i.e. the guard
+    !((hXX == 0 || hXYX == 0) && !heavy->is_valued()) of rebalance_to_{right,left}_locked blocked it"""
+    H = lambda n: n["rh"] if n else 0
+    ok = [True]
+    found = [0]
+
+    def walk(n):
+        if n is None:
+            return
+        hl, hr = H(n["l"]), H(n["r"])
+        if abs(hl - hr) > 1:
+            found[0] += 1
+            if hl > hr:
+                c = n["l"]
+                near, far = H(c["l"]), H(c["r"])                 # hLL, hLR
+                inner = H(c["r"]["l"]) if c["r"] else 0          # hLRL
+            else:
+                c = n["r"]
+                near, far = H(c["r"]), H(c["l"])                 # hRR, hRL
+                inner = H(c["l"]["r"]) if c["l"] else 0          # hRLR
+            if not (not c["valued"] and near < far and (near == 0 or inner == 0) and abs(near - inner) <= 1):
+                ok[0] = False
+        walk(n["l"])
+        walk(n["r"])
+    try:
+        walk(parse_bronson_shape(sh))
+    except Exception:
+        return False
+    return ok[0] and found[0] > 0
+
+
+def signature_of(what, obj=None):
     """stable signatures of the defects found so far (matched against known_findings.json)"""
     if "Bronson" in what and "bronson_avl_balance" in what:
-        return "bronson-avl-balance-not-restored-next-to-routing-node"
+        sh = ((obj or {}).get("detail") or {}).get("shape")
+        if sh and bronson_imbalance_explained(sh):
+            return "bronson-avl-balance-not-restored-next-to-routing-node"
+        return None
     if ("MichaelList" in what or "SplitListSet" in what and "michael" in what) and "concurrent history" in what and \
        "traversal of the quiescent structure differs" in what:
         return "michael_list-iterator-visits-logically-deleted"
@@ -314,7 +382,7 @@ def signature_of(what):
 
 def report(ctx, viol):
     ctx.max_per_what = 1
-    viol = [(w, o, s or signature_of(w)) for (w, o, s) in viol]
+    viol = [(w, o, s or signature_of(w, o)) for (w, o, s) in viol]
     for what, obj, sig in viol:
         ctx.violation(what, obj, signature=sig)
 
